@@ -16,6 +16,8 @@ pub fn def_use(
 
     for location in rd.keys() {
         du.entry(location.clone()).or_default();
+        // the definitions reaching this location before it executes
+        let rd_in = reaching_definitions::reaching_definitions_in(function, &rd, location)?;
         match location.function_location().apply(function).unwrap() {
             il::RefFunctionLocation::Instruction(_, instruction) => instruction
                 .operation()
@@ -23,7 +25,7 @@ pub fn def_use(
                 .into_iter()
                 .flatten()
                 .for_each(|scalar_read| {
-                    rd[location].locations().iter().for_each(|rd| {
+                    rd_in.locations().iter().for_each(|rd| {
                         rd.function_location()
                             .apply(function)
                             .unwrap()
@@ -43,7 +45,7 @@ pub fn def_use(
             il::RefFunctionLocation::Edge(edge) => {
                 if let Some(condition) = edge.condition() {
                     condition.scalars().into_iter().for_each(|scalar_read| {
-                        rd[location].locations().iter().for_each(|rd| {
+                        rd_in.locations().iter().for_each(|rd| {
                             if let Some(scalars_written) = rd
                                 .function_location()
                                 .apply(function)
